@@ -136,8 +136,13 @@ def execute(doc: dict) -> dict:
             if encoder_id != 2:
                 continue
             rnd = random.Random(op["vals_seed"])
-            starts = enc._ImprovedBottomLeftEncoding2__bin_starts
-            ends = enc._ImprovedBottomLeftEncoding2__bin_ends
+            # whatever arrays the encoder object keeps between calls
+            # (found generically, so that renaming them changes nothing)
+            scratch = packgen.scratch_arrays(enc)
+            if not scratch:
+                continue
+            starts = scratch[0]
+            ends = scratch[-1]
             sub = op["kind"]
             n = len(starts)
             if sub == "inverted":
